@@ -30,7 +30,9 @@ def sri_parse(s):
         algo, b64 = part.split("-", 1)
         b64 = b64.split("?", 1)[0]
         out.append((algo, base64.b64decode(b64)))
-    out.sort(key=lambda h: (ALGOS.index(h[0]), base64.b64encode(h[1])))
+    # ssri orders hashes by algorithm only (Hash::cmp) with a stable sort: among hashes of one algorithm the listing
+    # order decides
+    out.sort(key=lambda h: ALGOS.index(h[0]))
     return out
 
 
